@@ -309,6 +309,20 @@ def canonicalize(asts, ref=None):
     for rel, cs in cur_sigs.items():
         for s in cs.values():
             cur_nonself_attr |= names_in(s.tokens, ("attr",))
+    ref_nonself_attr = set()
+    for rel, runits in ref.items():
+        for k, (shape, toks) in runits.items():
+            ref_nonself_attr |= names_in(toks, ("attr",))
+    # methods that are Automat outputs / states (only ever named inside their own class body)
+    table_members = set()
+    for rel, mod in asts.items():
+        for c in mod.body:
+            if isinstance(c, ast.ClassDef):
+                for m_ in c.body:
+                    if isinstance(m_, (ast.FunctionDef, ast.AsyncFunctionDef)):
+                        for d in m_.decorator_list:
+                            if isinstance(d, ast.Call) and isinstance(d.func, ast.Attribute) and d.func.attr in ("output", "state"):
+                                table_members.add((rel, c.name, m_.name))
 
     accepted = {}      # scope -> {new: old}
     for scope, m in votes.v.items():
@@ -326,6 +340,12 @@ def canonicalize(asts, ref=None):
                 # the old spelling may survive on other objects only if another class still defines it
                 if old in cur_nonself_attr and not cur_attr_owner.get(old):
                     continue
+                # a public member (no leading underscore, not an Automat output/state) can be used through other objects:
+                # `self._D.stop()` keeps compiling when Dilator.stop is renamed.  It counts as a rename only if neither
+                # spelling is ever used through another object, before or after
+                if not old.startswith("_") and (scope[1], scope[2], new) not in table_members:
+                    if old in ref_nonself_attr or old in cur_nonself_attr or new in cur_nonself_attr:
+                        continue
             elif scope[0] == "mod":
                 if new in ref_mod[scope[1]] or old in cur_mod[scope[1]]:
                     continue
